@@ -104,6 +104,22 @@ CLAIMS['C16'] = dict(
          'points (thorough 3). sqrt modelled by order-only facts. The numpy scatter into area_grid is outside. Exact reals.',
     technique=TECH_A, engine='llir', ref='DESIGN.md section 3, C16')
 
+CLAIMS['C01'] = dict(
+    text='The real constructors, Vector setters and public forward/backward/backward_censored of all 13 transform classes are executed on symbolic '
+         'scalars (parameters over their whole declared interval, so the branch values lam = 0, lam = 2, |lam| <= 1e-10 are whole path regions, not '
+         'samples); on every feasible path z3 decides backward(forward(x)) = x, forward(backward(y)) = y, finiteness and backward_censored >= censor.',
+    note='Exact real arithmetic with EXP/LOG uninterpreted + sound ground axioms: unsat is sound for the real functions; sat models are replayed on the '
+         'real float code (1e-6 relative) and only reproducing ones are reported. Yeo-Johnson / LogSinh paths that the abstraction cannot close are counted '
+         'as inconclusive in the evidence. Arrays of 1 element (2 thorough); listed non-default constructor options.',
+    technique=TECH_B, engine='pysym', ref='DESIGN.md section 3, C01')
+CLAIMS['C02'] = dict(
+    text='The real forward of every transform class is run on dual numbers with a symbolic value part, giving d forward/dx as a z3 term from the real '
+         'code; on every feasible path z3 decides that it equals the real jacobian, that the jacobian is positive, and that forward is increasing '
+         'between two symbolic domain points; Softmax: determinant of the AD partials equals the jacobian.',
+    note='Trusted base: the differentiation rules of the Dual class, the EXP/LOG axioms. Exact reals; replay oracle = 5-point central difference on the '
+         'real float code (1e-4). Inconclusive paths (Logit edges, LogSinh) are counted in the evidence.',
+    technique=TECH_B, engine='pysym', ref='DESIGN.md section 3, C02')
+
 PENDING = 'check not built yet in this session (planned, see DESIGN.md section 3)'
 NOT_APPLICABLE = {
     'C13': 'persistence is carried by numpy tofile/fromfile, dtype objects, zipfile and float repr: no arithmetic core a solver can be given; '
